@@ -5,7 +5,7 @@ claim("C02", "property-based round-trip testing (Hypothesis generators, type-str
       "Trusted: Hypothesis, the bisimulation in vlib/compare.py, CPython. Two known findings are excluded by a predicate over the case "
       "(sub-minute UTC offsets; libyaml folding inside more-indented lines).")
 claim("C03", "grammar-based and mutation fuzzing with explicit escape/directive/header productions (Hypothesis), exception-class + mark-range + call-budget oracle",
-      "Generated search over str/bytes/stream inputs (valid renderings, grammar-aware and byte-level mutations, explicit productions, all truncations of small "
+      "Generated search over str/bytes/stream inputs (StringIO/BytesIO and file-like objects whose name is an int, None, bytes, str or missing, with short reads; valid renderings, grammar-aware and byte-level mutations, explicit productions, all truncations of small "
       "documents) x scan/parse/compose_all x both back-ends; oracle: only YAMLError subclasses escape, pure-Python work stays under a call budget, error marks "
       "lie inside the (decoded) input and pure-Python line/column equal an independent break count.",
       "Trusted: Hypothesis, vlib/ref_marks.py, sys.monitoring call counting. Hangs inside libyaml are only caught by the run watchdog. One known finding "
@@ -19,13 +19,13 @@ claim("C05", "property-based round-trip testing of event streams (Hypothesis gra
 claim("C06", "differential testing of the two back-ends on grammar-generated portable documents and on dumper/emitter outputs (Hypothesis), with expected events known by construction",
       "Generated search: documents rendered from an abstract portable-subset grammar (expected events known by construction) and texts produced by both dumpers/emitters; "
       "events, node graphs and objects of Base/Safe/Full/Unsafe loader pairs must agree between back-ends (and with the expectation); the four named malformed classes must "
-      "raise the same exception class on both sides.",
+      "raise the same exception class on both sides; the same comparisons for a pair of application loaders customised alike on both back-ends (path resolvers, implicit resolver, constructors), for short-read streams and around the length limits.",
       "Trusted: Hypothesis, the renderer in vlib/gen_docs.py (validated against both back-ends), vlib/compare.py. The non-specific tag '!' is a listed known finding and texts "
       "containing it are compared at event level only.")
 claim("C09", "grammar-based fuzzing + bounded-exhaustive enumeration (short strings, token sequences fed to a stub-driven parser) against independent grammar acceptors and a reference line/column counter",
       "Generated and exhaustive search: every string of length <=4 (quick) / <=5 (thorough) over a 20-symbol indicator alphabet, rendered/mutated/production inputs, and every token "
       "sequence of length <=4/<=5 over 20 token kinds fed directly to the parser; oracle = independent recursive-descent acceptor of the documented token grammar that derives the events, "
-      "event-grammar acceptor, mark range/monotonicity, reference (line,column) count, source-slice equality for plain scalars/anchors/aliases.",
+      "event-grammar acceptor, mark range/monotonicity/no-overlap, reference (line,column) count, source-slice equality for plain scalars/anchors/aliases; the same through short-read text streams and for UTF-8(+BOM) / UTF-16 byte input (positions refer to the decoded characters).",
       "Trusted: vlib/ref_events.py, vlib/ref_marks.py. LibYAML marks are checked for range/monotonicity only. Two libyaml known findings (UnicodeDecodeError in the bridge; '[?]]' accepted).")
 claim("C08", "bounded-exhaustive enumeration of scalar texts + generated members/near-members, against a hand-written YAML 1.1 scalar recogniser/evaluator (reference model)",
       "Every string of length <=4 (quick) / <=5 (thorough) over a 30-symbol alphabet and generated members/near-members of every type production are classified by the resolvers of the "
@@ -64,16 +64,17 @@ claim("C14", "property-based testing against a reference model: an independent n
       "value (compared type-strictly on values, by dict equality on keys, key order for merge-free mappings) or 'ill-shaped', in which case exactly ConstructorError must be raised.",
       "Trusted: vlib/ref_construct.py, vlib/ref_scalar.py, and yaml.compose for the node graph. Recursive merges are outside the generated domain.")
 claim("C13", "property-based testing of generated alias graphs: parallel walk of the loaded object graph (and the composed node graph) against the abstract graph, bijection oracle; single-defect ill-formed arm (Hypothesis)",
-      "Generated search: abstract graphs (list, dict, set, omap, pairs, scalars; python/tuple and python/object instances with and without __setstate__, instances as keys) with aliases to "
-      "finished nodes and to ancestors, one or two documents; Safe/Full/Unsafe x pure-Python/LibYAML loaders and compose. Oracle: the relation abstract node <-> Python object built by a "
+      "Generated search: abstract graphs (list, dict, set, omap, pairs, scalars; python/tuple, python/object and YAMLObject instances with and without __setstate__, instances as keys) with aliases to "
+      "finished nodes and to ancestors, one or two documents, delivered as str or through text / byte streams in small pieces; Safe/Full/Unsafe x pure-Python/LibYAML loaders and compose. Oracle: the relation abstract node <-> Python object built by a "
       "parallel walk must be a bijection and contents must match; exactly one injected defect (undefined/forward alias, alias into the previous document, duplicate anchor, container as "
       "its own key or set member) must raise ComposerError / ConstructorError; no RecursionError; call budget.",
-      "Trusted: the renderer/expectation in checks/c13.py. Cycles through python/tuple or inside a __setstate__ state may be built or rejected; one known finding (cycle first reached in deep "
-      "mode is rejected) is excluded by a predicate on the document (it contains a __setstate__ class and a cycle), which also hides other wrong rejections in that class of documents.")
+      "Trusted: the renderer/expectation and the construction-order model simulate() in checks/c13.py, which decides which cycles the documented two-phase algorithm can build; the listed "
+      "known finding (a cycle first reached in deep mode is rejected) is exactly what that model predicts and is re-checked on its pinned input.")
 claim("C16", "metamorphic property-based testing: insertion-order permutation, helper interpreters with other PYTHONHASHSEED values, dump-load-dump fixed point, per-document anchor numbering (Hypothesis)",
       "Generated search: value graphs (1-3 documents, sharing, recursion) whose containers draw keys from one mutually comparable class x dump options x both dumpers. Relations: sort_keys on => "
       "identical text after permuting every container's insertion order and in interpreters started with PYTHONHASHSEED 1 and 4242 rebuilding the value from its blueprint; sort_keys off => "
-      "reloaded dict order is insertion order; dump(load(dump(x))) == dump(x) with either loader; every document defines exactly the anchors id001..idNNN.",
+      "reloaded dict order is insertion order; dump(load(dump(x))) == dump(x) with either loader; every document defines exactly the anchors id001..idNNN. Values include application-tagged scalars written by private "
+      "dumper subclasses under a tags= option with nested / overlapping prefixes (the handle chosen must not depend on hash seed or insertion order).",
       "Trusted: Hypothesis, vlib/compare.py, the helper protocol in vlib/c16_helper.py. Multi-member sets under sort_keys=False are outside the property and excluded by construction.")
 claim("C07", "metamorphic property-based testing over delivery forms and read-size schedules (Hypothesis) plus exhaustive single split positions of small documents",
       "Generated search: valid / reader-clean erroneous / single-reader-defect texts, padded to straddle refill boundaries, delivered as str, UTF-8, UTF-8+BOM, UTF-16-LE/BE+BOM bytes, StringIO, BytesIO and "
@@ -84,7 +85,7 @@ claim("C07", "metamorphic property-based testing over delivery forms and read-si
 claim("C10", "model-based testing of operation histories (Hypothesis-generated lists of registration/subclassing operations, shrunk as one value; exhaustive short histories) against an executable model of the copy-on-write registries",
       "Generated histories over a growing class lattice rooted at all shipped loader/dumper classes (subclassing incl. diamonds, the six add_* class methods, the module-level helpers with and without "
       "explicit Loader=/Dumper=, YAMLObject subclasses with class/list loaders); after every step every class's effective table for every registry kind must equal the model's, no two owners may share a "
-      "table object or a per-character resolver list, and every few steps the winner of probe loads / dumps / resolutions must be the one the rule predicts for every class.",
+      "table object or a per-character resolver list, and every few steps the winner of probe loads / dumps / resolutions must be the one the rule predicts for every class, through every module-level entry point that takes Loader= / Dumper= (load, load_all, compose, compose_all, parse, dump, dump_all, serialize, serialize_all).",
       "Trusted: vlib/registry_model.py. Histories share one process; the shipped classes' registries are restored and fingerprint-checked after each history.")
 claim("C11", "history-based testing: Hypothesis-generated call sequences run in children forked from a pristine process, compared step by step with the same call run alone, plus a digest of all package-level state; metamorphic stream-vs-single-document relation",
       "Generated histories (up to 30 steps, plus same-item focused histories) over ~200 public calls x a pool of valid and failing inputs, values, event lists, generators abandoned after k items, both back-ends and user "
@@ -95,7 +96,7 @@ claim("C18", "property-based testing with an instrumented stream (monitor of con
       "Generated streams of 1-10 documents of sizes from empty to several refill blocks, tokens longer than a block, explicit '...' ends, one optionally malformed document (incl. content directly after '...'), "
       "tails of 0-20 blocks, text or byte delivery with drawn read sizes x scan/parse/compose_all/load_all x both back-ends. Oracle: at the delivery of document k at most two refill blocks (4096 / 16384) beyond "
       "its end were consumed, the same amount when the tail is four times longer, a bounded number of read() calls; documents before a malformed one are delivered before its error (the error it gives alone); "
-      "closing the generator disposes the loader and reads nothing more.",
+      "closing the generator disposes the loader, reads nothing more and frees the loader object at once (checked with the cyclic collector off, after 0, 1 and several items; UTF-8 and UTF-16 byte streams).",
       "Trusted: the block constants 4096 / 16384 (what the unchanged library requests) and the offsets computed by the generator.")
 claim("C19", "fault injection with per-case enumeration of every fault index (write, flush, read, user constructor/multi-constructor/representer/multi-representer/YAMLObject callbacks), cases generated by Hypothesis",
       "For every generated case the fault-free run counts the invocations of the caller's object; the run is then repeated with a unique exception object raised at each invocation index (runs above 250 invocations: "
@@ -104,7 +105,7 @@ claim("C19", "fault injection with per-case enumeration of every fault index (wr
       "reference results and the digest of the package's global state is unchanged.",
       "Trusted: the instrumented writer/reader in checks/c19.py; faults are exceptions raised at call boundaries of the caller's objects.", category="fault_enumeration")
 claim("C20", "metamorphic size-doubling test over a catalogue of parameterised document/value families, work measured as a deterministic count of Python-level calls (sys.monitoring), parameters drawn by Hypothesis",
-      "38 load families and 18 dump families (every scalar style on one and many lines, escapes, block/flow entries, single-line flow collections, many documents, anchors, many aliases to one node, doubling alias "
+      "54 load families (given as str, text stream, byte stream or UTF-16 bytes) and 25 dump families (to a string or a stream) (every scalar style on one and many lines, escapes, block/flow entries, single-line flow collections, many documents, anchors, many aliases to one node, doubling alias "
       "chains, comments, blank and space runs, long keys, tags, merges, numbers, binary, sets/omaps; lists, dicts, sets, strings per style, shared objects, unicode, controls, floats) at sizes n, 2n, 4n with "
       "drawn filler word / line break / indent / key length / dump options; oracle: calls(2n)/calls(n) <= 2.15, calls(4n)/calls(2n) <= 2.15, second-difference ratio <= 2.3. Every family is run at least "
       "once per run with default parameters.",
